@@ -262,12 +262,15 @@ DrawEv(e) ==
       lab(ch) == LET m == {j \in 1..Len(d.labels) : d.labels[j][1] = ch} IN IF m = {} THEN ToString(ch) ELSE d.labels[CHOOSE j \in m : TRUE][2]
       rowOf(qb) == CHOOSE j \in 1..Len(d.rows) : d.rows[j] = qb
       maxEnd == IF Range(leaves) = {} THEN 0 ELSE MaxOf({EndOf(H, E, i) : i \in Range(leaves)})
+      maxEndR == IF d.reported = <<>> THEN maxEnd ELSE MaxOf({d.reported[j][3] : j \in 1..Len(d.reported)})
       cl ==
         IF ~valid THEN When(d.result = "rejected", Fail("C18.reject", c, <<"order", d.order, "occupied", d.occupied, "result", d.result>>))
         ELSE IF d.result # "ok" THEN {Fail("C18.success", c, d.result)}
         ELSE When(d.rows = rows, Fail("C18.rows", c, <<"rows", d.rows, "expected", rows>>))
              \cup When(d.label_map = [j \in 1..Len(d.rows) |-> <<j - 1, lab(d.rows[j])>>], Fail("C18.labels", c, d.label_map))
-             \cup When(d.width = (IF maxEnd > 4 THEN maxEnd ELSE 4) + 4, Fail("C18.width", c, <<"width", d.width, "latest end", maxEnd>>))
+             \cup When(d.width = (IF maxEnd > 4 THEN maxEnd ELSE 4) + 4,
+                       [Fail("C18.width", c, <<"width", d.width, "latest end", maxEnd, "latest reported end", maxEndR>>)
+                          EXCEPT !.memo = d.width = (IF maxEndR > 4 THEN maxEndR ELSE 4) + 4])
              \cup When(Range(d.ops) = Range(leaves), Fail("C18.operations", c, <<Len(d.ops), Cardinality(Range(leaves))>>))
              \* every drawn component is one operation at its start time / extent / rows, and every operation of a kind the drawer
              \* renders has its component (components are not emitted in listing order: compare as multisets)
@@ -279,7 +282,13 @@ DrawEv(e) ==
                             vals == {placeOf(o) : o \in drawn} \cup {pos(d.comps[k]) : k \in 1..Len(d.comps)}
                             nExp(v) == Cardinality({o \in drawn : placeOf(o) = v})
                             nGot(v) == Cardinality({k \in 1..Len(d.comps) : pos(d.comps[k]) = v})
-                        IN UNION {When(nExp(v) = nGot(v), Fail("C18.x", c, <<"placement", v, "operations there", nExp(v), "components there", nGot(v)>>)) : v \in vals}
+                            \* the same with the start times the circuit itself reported while it was being drawn
+                            repStart(o) == LET m == {j \in 1..Len(d.reported) : d.reported[j][1] = o} IN IF m = {} THEN StartOf(H, E, o) ELSE d.reported[CHOOSE j \in m : TRUE][2]
+                            placeR(o) == [placeOf(o) EXCEPT !.x = repStart(o)]
+                            agreesWithReport == \A v \in {placeR(o) : o \in drawn} \cup {pos(d.comps[k]) : k \in 1..Len(d.comps)} :
+                                                   Cardinality({o \in drawn : placeR(o) = v}) = nGot(v)
+                        IN UNION {When(nExp(v) = nGot(v), [Fail("C18.x", c, <<"placement", v, "operations there", nExp(v), "components there", nGot(v)>>)
+                                                             EXCEPT !.memo = agreesWithReport]) : v \in vals}
                    ELSE {})
   IN /\ fails' = fails \cup Tag(IF c \in DOMAIN heap THEN cl ELSE {})
      /\ UNCHANGED <<heap, env, applied, flats, nobs, expect>>
